@@ -87,6 +87,7 @@ class ShardStats:
         self.nt_extra = 0
         self.case_errors = []  # exceptions raised by check code itself on single cases (first few, with the case)
         self.n_case_errors = 0
+        self.inconclusive = []  # cases the watchdog gave up on
 
     def record(self, case, classes, failures):
         self.evals += 1
@@ -118,7 +119,7 @@ class ShardStats:
                     slot.update(case=case, detail=detail, size=size)
 
 
-CASE_WATCHDOG_S = 600
+CASE_WATCHDOG_S = int(os.environ.get("VF_CASE_WATCHDOG_S", "600"))
 
 
 class CaseWatchdog(BaseException):
@@ -193,10 +194,15 @@ def run_shard(job):
             if time.time() > deadline:
                 stats.skipped += 1
                 return
+            if stats.inconclusive:
+                stats.skipped += 1
+                return
             try:
                 classes, failures = checked(tgt, case)
-            except Inconclusive:
-                raise
+            except Inconclusive as exc:
+                # undecided case (watchdog): the rest of this shard is skipped, what was decided before it stands
+                stats.inconclusive.append(str(exc))
+                return
             except Exception as exc:  # noqa: BLE001 - check code tripped over this case: contain it, go on with the others
                 stats.n_case_errors += 1
                 if len(stats.case_errors) < 2:
@@ -277,6 +283,7 @@ def run_shard(job):
             skipped=stats.skipped,
             case_errors=stats.case_errors,
             n_case_errors=stats.n_case_errors,
+            inconclusive=stats.inconclusive,
         )
     except BaseException as exc:  # noqa: BLE001
         out["error"] = "".join(traceback.format_exception(type(exc), exc, exc.__traceback__))[-4000:]
@@ -416,6 +423,8 @@ def main(argv=None):
             if res["error"]:
                 errors.append(f"{res['target']}#{res['shard']}: {res['error']}")
                 continue
+            for msg in res.get("inconclusive") or []:
+                errors.append(f"inconclusive-case: {res['target']}#{res['shard']}: {msg}")
             if res.get("n_case_errors"):
                 errors.append(f"case-error: {res['n_case_errors']} case(s) of {res['target']}#{res['shard']} raised inside the check code; first: {res['case_errors'][0]}")
             st = agg["stats"][res["target"]]
@@ -549,8 +558,9 @@ def main(argv=None):
         print(f"KNOWN-FINDING: property={pid} {known[sig]} (sig={sig}, {n} cases excluded)")
     # a missing required class next to real failures is usually their consequence (cases fail before they are
     # classified), and so is check code tripping over single cases (a return value of an unexpected shape): violations
-    # win; with no violation either makes the run inconclusive (exit 2)
-    hard = [e for e in errors if not e.startswith(("required class", "case-error"))]
+    # win, also over a case the watchdog gave up on (what other cases showed does not depend on it); with no violation
+    # each of these makes the run inconclusive (exit 2)
+    hard = [e for e in errors if not e.startswith(("required class", "case-error", "inconclusive-case"))]
     for name, sig, n, detail, path in violations:
         print(f"  failure target={name} sig={sig} count={n} :: {detail[:300]}")
         if not hard:
